@@ -18,7 +18,7 @@ theorem sinLaw_real : SinLaw realTrig := ⟨Real.neg_one_le_sin, Real.sin_le_one
 theorem expLinLaw_real : ExpLinLaw realFn :=
   ⟨fun x => by have := Real.add_one_le_exp x; show 1 + x ≤ Real.exp x; linarith⟩
 
-theorem powNonneg_real : PowNonneg realFn := ⟨fun _ _ _ => (Real.exp_pos _).le⟩
+theorem powNonneg_real : PowNonneg realFn := ⟨fun _ y hx => realFn_pow_nonneg hx y⟩
 
 /-- Wheat (calendar-day crop) after initialisation -/
 noncomputable def wheat : HiCrop ℝ :=
